@@ -465,18 +465,18 @@ def explore(ctx, E, scripts, stricts, ambients, target_limit=None):
                     live_vals = R.live
                     targets = list(range(len(R.objs)))
                     if target_limit: targets = targets[:target_limit]
-                    dirty = False
+                    dirty = False; last = None
                     for o_i in targets:
                         n_ops = len(ops_for(E, R, R.objs[o_i]))
                         for op_i in range(n_ops):
                             if dirty:
                                 # the previous operation changed the snapshot (read-bits apart): start again from a fresh finished session
-                                R, how = run_session(E, script, ending, strict); dirty = False
+                                R, how = run_session(E, script, ending, strict); dirty = False; last = None
                                 ctx.count('session-rerun')
                             o = R.objs[o_i]
                             op, fn, kind = ops_for(E, R, o)[op_i]
-                            pre = canon_world(R.snapshot()); xpre = R.extra()
-                            dump_pre = E.dump()
+                            if last is None: last = (canon_world(R.snapshot()), R.extra(), E.dump())
+                            pre, xpre, dump_pre = last
                             m = E.tr.mark()
                             if ambient:
                                 def call(fn=fn):
@@ -487,6 +487,7 @@ def explore(ctx, E, scripts, stricts, ambients, target_limit=None):
                             events = E.tr.db_events(E.tr.since(m))
                             post = canon_world(R.snapshot()); xpost = R.extra()
                             dump_post = E.dump()
+                            last = (post, xpost, dump_post)
                             op = dict(op)
                             nsel = len([e for e in events if e['call'] == 'execute' and e['kind'] == 'select'])
                             full_case = dict(case, obj=o_i, ent=type(o).__name__, status=pre['objs'][o_i]['status'], op=op_brief(op), ambient=ambient)
@@ -578,7 +579,7 @@ def run(ctx):
     E = Env(os.path.join(work, 'c32.sqlite'))
     try:
         scripts = SCRIPTS
-        pending = explore(ctx, E, scripts, [False, True], [False, True], target_limit=None if ctx.thorough else 6)
+        pending = explore(ctx, E, scripts, [False, True], [False, True], target_limit=None if ctx.thorough else 5)
         check_model(ctx, pending)
         witnesses(ctx, E)
         ctx.extra['violation_keys'] = sorted(v['key'] for v in ctx.violations)
